@@ -15,6 +15,7 @@ kind in `dp0 dp1 p1 rwg dual0 dual1 bc`.
    (`lloc` = `local2global` of the localised space, `mloc`/`mfull` = COO triplets of `map_to_localised_space` /
    `map_to_full_grid`, `entries` = COO triplets of `dof_transformation` for dual0/dual1)
    or `err value-error` (both selections) / `err index-error` (support element out of range) / `err bad-op`.
+`bcint <sign p/q> <nc> <edge lengths p/q ...>` -> `ok <values p/q ...>` = `_interior_barycentric_edges_coefficients`.
 -/
 namespace Driver.Space
 open BemppVerif.Model BemppVerif.Model.Space Driver
@@ -149,6 +150,10 @@ def handle (toks : List String) : String :=
           let b := bc T sup q.incl q.trunc
           answer b.space 3 (fun k => nm (k / 6)) b.gdc b.gdc b.entries q.wantG2l
         | _ => "err bad-op"
+  | "bcint" :: sign :: nc :: lens =>
+    match parseRat? sign, nc.toNat?, parseRats lens with
+    | some sg, some n, some l => "ok " ++ showRats (bcInteriorValues sg n l)
+    | _, _, _ => "err bad-op"
   | _ => "err bad-op"
 
 end Driver.Space
